@@ -247,8 +247,8 @@ def _ctor_sets_inline(f):
     return True
 
 
-def source_reset(ctx, db):
-    rid = ctx.rule('C06.source-reset', 'COUNT+ORDER', 'move construction and merge (operator<<(suspend_point&&), hence move-assignment) leave the source empty on every path: the '
+def source_reset(ctx, db, rid='C06.source-reset'):
+    rid = ctx.rule(rid, 'COUNT+ORDER', 'move construction and merge (operator<<(suspend_point&&), hence move-assignment) leave the source empty on every path: the '
                    'source\'s _count_flag is set to 0 (assignment or std::exchange) and nothing else is written to it afterwards; the merge hands each source element to add() exactly once per loop iteration', floor=2)
     targets = []
     for f in db.fns('cocls::suspend_point::suspend_point'):
@@ -573,7 +573,8 @@ def collected_is_removed(ctx, db, rid='C06.collected-is-removed'):
     another in neither (never resumed)"""
     rid = ctx.rule(rid, 'COUNT+ORDER', 'coro_queue::create_suspend_point: in every iteration of the collecting loop exactly one element of the ready queue is read into the suspend point and '
                    'exactly one is removed, at the same end (back + pop_back, or front + pop_front); the loop runs while the queue is longer than it was before fn()', floor=1)
-    T = htracer(db, maxvisit=3)
+    # a loop moved into a free helper of the detail namespace (handed the queue by reference) is followed too
+    T = htracer(db, maxvisit=3, extra=lambda c, e, callee: bool(re.match(r'cocls::(_details|_detail|detail|details)::', callee.get('nname') or '')) and not callee.get('coroutine'))
     fns = db.need('cocls::coro_queue::create_suspend_point')
     seen = set(); n = 0
     for f in fns:
@@ -586,7 +587,7 @@ def collected_is_removed(ctx, db, rid='C06.collected-is-removed'):
         for tr in trs:
             pend = None
             for it in tr:
-                if it.k != 'call' or efield(f, it) != RQ and norm(it.get('field') or '') != RQ:
+                if it.k != 'call' or (efield(f, it) != RQ and norm(it.get('field') or '') != RQ and not re.search(r'coro_queue::instance->_queue$', it.get('recv') or '')):
                     continue
                 o = norm(it.get('callee') or '').split('::')[-1]
                 if o in ('back', 'front', 'operator[]', 'at'):
